@@ -489,7 +489,7 @@ pub fn defs() -> Vec<CheckDef> {
     vec![CheckDef {
         id: "C18",
         level: "exploration",
-        runs_quick: 150_000,
+        runs_quick: 300_000,
         runs_thorough: 5_000_000,
         block: 256,
         gen: gen_c18,
